@@ -78,16 +78,16 @@ TECH = {
  "codec": "TLC enumeration of a TLA+ transcription of the codec + one implementation test per model case, results validated by TLC",
  "proc": "TLC model checking of XsHandlers/XsCommands/XsGenerators + TLC trace validation (TraceProc) of client histories executed on the real serve loops, restarts by killing the serving process",
  "http": "TLC trace validation (TraceStore + status rules) of model-generated behaviours executed over HTTP, plus malformed request classes",
- "conc": "TLC model checking of XsConcurrent + gate-scheduled replay/exploration of real threads + TLC trace validation (TraceFollow)",
+ "conc": "TLC model checking of XsConcurrent (invariants, and temporal properties under weak fairness) + gate-scheduled replay/exploration of real threads + TLC trace validation (TraceFollow)",
  "store": "TLC model checking of XsStore + TLC trace validation (TraceStore) of replayed behaviours on the real store",
 }
-DESIGN = {"routes": "DESIGN.md 0.3 (routes group), Appendix D", "nu": "DESIGN.md 0.3 (nu group), 5 (C06 C10 C12)", "cli": "DESIGN.md 0.3 (cli group), 5 (C12 C13 C20)", "proc": "DESIGN.md 3 (XsHandlers/XsGenerators/XsCommands), 5 (C14-C19), docs/proc-notes.md", "dur": "DESIGN.md 3 (XsDurable), 4.4, 5 (C04 C10 C07); docs/dur-notes.md", "codec": "DESIGN.md 5 (C12)","http": "DESIGN.md 5 (C13), Appendix D","conc": "DESIGN.md 3, 4.1, 5 (C02 C03 C11)", "store": "DESIGN.md 3, 4, 5 (C01 C05 C07 C08 C09 C20)"}
+DESIGN = {"routes": "DESIGN.md 0.3 (routes group), Appendix D", "nu": "DESIGN.md 0.3 (nu group), 5 (C06 C10 C12)", "cli": "DESIGN.md 0.3 (cli group), 5 (C12 C13 C20)", "proc": "DESIGN.md 3 (XsHandlers/XsGenerators/XsCommands), 5 (C14-C19), docs/proc-notes.md", "dur": "DESIGN.md 3 (XsDurable), 4.4, 5 (C04 C10 C07); docs/dur-notes.md", "codec": "DESIGN.md 5 (C12)","http": "DESIGN.md 5 (C13), Appendix D","conc": "DESIGN.md 0.3 (liveness of the concurrent layer), 3, 4.1, 5 (C02 C03 C11)", "store": "DESIGN.md 3, 4, 5 (C01 C05 C07 C08 C09 C20)"}
 
 # what each check decides of its property, and through which group
 PROP = {
  "C01": "store: every read (both paths, ctx x last-id x limit), get and the order of append ids, after every step of TLC-generated and random histories incl. reopen, import, GC, expiry; bulk storage layouts only in the durability group's bulk runs.",
- "C02": "conc: poller never misses / stream grows at its end / broadcast order under all gate-level interleavings of 2-3 writers (TLC) and on explored real schedules, plus hook-free stress with production buffer sizes; http: an upload still open while another client's append completes and is read (under the virtual clock, and under the real clock with the real id generator): the later append has the larger id and reaches a poller resuming from the earlier one.",
- "C03": "conc: strictly increasing, duplicate-free, complete delivery and threshold placement for every explored interleaving of append with subscribe / scan / hand-off / live; http / cli: complete and ordered delivery over GET /?follow (tail, from the beginning, after an id - also one above or below imported ids -, heartbeat + limit), head --follow and `xs cat --follow`, with frames appended into several contexts while the stream is open. Known finding C03-ephemeral-dropped is recognised by its specific pattern only.",
+ "C02": "conc: poller never misses / stream grows at its end / broadcast order under all gate-level interleavings of 2-3 writers (TLC) and on explored real schedules, plus hook-free stress with production buffer sizes; under weak fairness (FairSpec, MC_conc_live_*) TLC also proves that no writer stays stuck on the append mutex and that the polling client ends up with the whole stream; http: an upload still open while another client's append completes and is read (under the virtual clock, and under the real clock with the real id generator): the later append has the larger id and reaches a poller resuming from the earlier one.",
+ "C03": "conc: strictly increasing, duplicate-free, complete delivery and threshold placement for every explored interleaving of append with subscribe / scan / hand-off / live, and as progress under weak fairness (FairSpec: the reader settles, the owed threshold is sent, the open follower ends up with everything it is owed - L_Settles, L_ThresholdSent, L_FollowerComplete); http / cli: complete and ordered delivery over GET /?follow (tail, from the beginning, after an id - also one above or below imported ids -, heartbeat + limit), head --follow and `xs cat --follow`, with frames appended into several contexts while the stream is open. Known finding C03-ephemeral-dropped is recognised by its specific pattern only.",
  "C04": "dur: every store-mutating system call after the first ACK is a crash point: real SIGKILL images and reconstructed power-loss images recovered by the real Store::new; membership in {Apply(acked), Apply(acked + in flight)}, partition and access-path agreement, registry, content after kill.",
  "C05": "store: get / all-contexts read / own-context read agree, head exact for prefix-related, empty, multi-byte and long topics, NUL rejected on append and import with raw partition dumps; XsKeys: the key-layout argument over all short byte strings.",
  "C06": "store: reads and head per context incl. numerically adjacent context ids; conc: follower context filter; http: every route taking a context incl. head --follow; handler dispatch/output and script-visible commands: processors group.",
@@ -95,7 +95,7 @@ PROP = {
  "C08": "store: a frame vanishes only if removed, expired (virtual clock at ts+N-1, ts+N, ts+N+1 and while a scan is stalled) or outside the K newest after a head:K append; GC steps interleaved by the gate; TLC action property C08_NoEarlyLoss on the model.",
  "C09": "store: ephemeral never stored, expired never read on either path, gone after drain, head bound and eviction order after drain; conc: ephemeral frames reach subscribed followers. Known finding C09-reopen-drops-head-gc recognised by its specific pattern only.",
  "C10": "store/http: byte-exact read-back of every content class, hash determinism across calls, entry points (Store API, POST /{topic}, POST /cas) and restarts, no body => no hash, every visible hash has content; conc: content readable at delivery; dur: after every kill image. nu / handler / command / generator entry points: processors group.",
- "C11": "conc: limit exact for every split between history and live, tail, synthetic frames private, stream ends after lag (B = 1 scenarios and production sizes in stress); store: limit on non-following reads incl. expired frames, tail without follow.",
+ "C11": "conc: limit exact for every split between history and live, tail, synthetic frames private, stream ends after lag (B = 1 scenarios and production sizes in stress), and as temporal properties under weak fairness the stream does end - end-of-stream reaches the consumer - after the limit, without follow, after lag (L_LimitEnds, L_NonFollowEnds, L_LagEnds; vacuity guard: HbStops = FALSE must violate them); store: limit on non-following reads incl. expired frames, tail without follow.",
  "C12": "codec: TTL and read-option grammar exhaustively at token level through every spelling and entry point, 2000 seeded ReadOptions round trips; store/http: every accepted frame (meta classes: deep nesting, u64::MAX, i64::MIN, 1e300, escapes, non-object metas, 5 KB strings) reads back identical on every path and survives reopen; a panic in the decoder is an observation; cli: what the command line client encodes (context, ttl, xs-meta, last-id, limit, tail, all-contexts) is what the server decodes, judged by the effect and differentially against the Store API.",
  "C13": "http: each route against the store semantics (TraceStore) with status codes and, differentially, against the Store API asked the same question in the same state (reads, get, head, effect of append / import / remove); NDJSON = SSE, ~43 malformed request classes answered 4xx with unchanged partitions and a serving server, follow routes (tail, from the beginning, after an id, heartbeat + limit, head --follow); routes: the dispatch table enumerated (8040 requests) against its TLA+ transcription; cli: the same through the xs binary and src/client.",
  "C14": "proc: per handler instance, from the dumped stream alone: invoked exactly once ($env counter in the content), in id order, one group at a time, for every eligible frame of its context after its resume point (head / tail / after-id), never for its own output, for old registration traffic of its name or for another context; bursts from several client threads while the closure sleeps; pulse handlers.",
